@@ -37,3 +37,8 @@ func VerifParseInterval(s string) (int64, int64, error) {
 	iv, err := parseInterval(s)
 	return iv.start, iv.end, err
 }
+
+// VerifPrintJSONData exposes printJSONData.
+func VerifPrintJSONData(data []byte) ([]byte, error) {
+	return printJSONData(data)
+}
